@@ -119,8 +119,10 @@ def nontrivial(op, result):
 
 def weight(op):
     t = op.split()
-    if t[0] == "sts":
+    if t[0] in ("sts", "stmems"):
         return int(t[4]) - int(t[3]) + 1
+    if t[0] == "stselfs":
+        return int(t[3]) - int(t[2]) + 1
     if t[0] == "rels":
         return len(domain(t[1], int(t[2])))
     if t[0] == "tri":
@@ -132,6 +134,10 @@ def refine(op):
     t = op.split()
     if t[0] == "sts":
         return [f"st {t[1]} {t[2]} {b}" for b in range(int(t[3]), int(t[4]) + 1)]
+    if t[0] == "stmems":
+        return [f"stmem {t[1]} {t[2]} {b}" for b in range(int(t[3]), int(t[4]) + 1)]
+    if t[0] == "stselfs":
+        return [f"stself {t[1]} {a}" for a in range(int(t[2]), int(t[3]) + 1)]
     if t[0] == "rels":
         return [f"rel {t[1]} {t[3]} {enc(b)}" for b in domain(t[1], int(t[2]))]
     if t[0] == "tri":
@@ -144,7 +150,12 @@ U32 = [0, 1, 2, 3, 127, 128, 255, 256, 65535, 65536, 2 ** 31 - 1, 2 ** 31, 2 ** 
 U64 = [0, 1, 2, 3, 255, 65536, 2 ** 32 - 1, 2 ** 32, 2 ** 32 + 1, 2 ** 63 - 1, 2 ** 63, 2 ** 63 + 1, 2 ** 64 - 3, 2 ** 64 - 2, 2 ** 64 - 1]
 I32 = [-2 ** 31, -2 ** 31 + 1, -2 ** 16, -46341, -129, -128, -2, -1, 0, 1, 2, 127, 128, 46340, 46341, 2 ** 16, 2 ** 31 - 2, 2 ** 31 - 1]
 I64 = [-2 ** 63, -2 ** 63 + 1, -2 ** 32, -3037000500, -2, -1, 0, 1, 2, 3037000499, 3037000500, 2 ** 32, 2 ** 63 - 2, 2 ** 63 - 1]
-RANGES = {"i32": (-2 ** 31, 2 ** 31 - 1), "u32": (0, 2 ** 32 - 1), "i64": (-2 ** 63, 2 ** 63 - 1), "u64": (0, 2 ** 64 - 1)}
+I16 = [-32768, -32767, -256, -255, -182, -181, -129, -128, -2, -1, 0, 1, 2, 127, 128, 181, 182, 255, 256, 32766, 32767]
+U16 = [0, 1, 2, 3, 127, 128, 255, 256, 257, 32767, 32768, 46340, 46341, 65533, 65534, 65535]
+RANGES = {"i32": (-2 ** 31, 2 ** 31 - 1), "u32": (0, 2 ** 32 - 1), "i64": (-2 ** 63, 2 ** 63 - 1), "u64": (0, 2 ** 64 - 1),
+          "i8": (-128, 127), "u8": (0, 255), "i16": (-32768, 32767), "u16": (0, 65535)}
+BOUNDARY = {"i32": I32, "u32": U32, "i64": I64, "u64": U64, "i16": I16, "u16": U16,
+            "i8": [-128, -127, -1, 0, 1, 126, 127], "u8": [0, 1, 127, 128, 254, 255]}
 
 
 def rand_int(r, ty):
@@ -153,7 +164,7 @@ def rand_int(r, ty):
     if k == 0:
         return r.range(lo, hi)
     if k == 1:
-        return r.choice({"i32": I32, "u32": U32, "i64": I64, "u64": U64}[ty])
+        return r.choice(BOUNDARY[ty])
     if k == 2:
         v = r.range(-200, 200)
         return min(hi, max(lo, v))
@@ -245,13 +256,43 @@ def batches(rng, tier):
     ops = [f"st i32 {a} {b}" for a in I32 for b in I32] + [f"st i64 {a} {b}" for a in I64 for b in I64]
     yield Batch("st-signed-boundary", ops, exhaustive=True,
                 note="all pairs of overflow boundary values of int and long (`ub` where the plain operator overflows)")
+    # types narrower than int: integral promotion inside op=, ++, -- (binary / unary operators are ill-formed there)
+    ops = [f"sts i8 {a} -128 127" for a in range(-128, 128)] + [f"sts u8 {a} 0 255" for a in range(0, 256)]
+    yield Batch("st-narrow-exhaustive", ops, exhaustive=True,
+                note="all operand pairs of signed char and of unsigned char: op=, ++/--, comparisons, hash, type_iso")
+    ops = [f"st i16 {a} {b}" for a in I16 for b in I16] + [f"st u16 {a} {b}" for a in U16 for b in U16]
+    yield Batch("st-narrow-boundary", ops, exhaustive=True,
+                note="all pairs of boundary values of short / unsigned short (`ub`: unsigned short product beyond int)")
+    # the SAME object on both sides of every binary / assigning operator
+    ops = ["stselfs i8 -128 127", "stselfs u8 0 255"]
+    ops += [f"stselfs i16 {lo} {lo + 4095}" for lo in range(-32768, 32768, 4096)]
+    ops += [f"stselfs u16 {lo} {lo + 4095}" for lo in range(0, 65536, 4096)]
+    ops += ["stselfs i32 -128 127", "stselfs u32 0 255", "stselfs i64 -128 127", "stselfs u64 0 255"]
+    ops += [f"stself {ty} {a}" for ty in ("i32", "u32", "i64", "u64") for a in BOUNDARY[ty]]
+    ops += [f"stselfs i32 {2 ** 31 - 256} {2 ** 31 - 1}", f"stselfs i32 {-2 ** 31} {-2 ** 31 + 255}",
+            f"stselfs i32 {2 ** 30 - 128} {2 ** 30 + 127}", f"stselfs i32 46213 46468", f"stselfs i32 -46468 -46213",
+            f"stselfs u32 {2 ** 32 - 256} {2 ** 32 - 1}", f"stselfs u32 {2 ** 31 - 128} {2 ** 31 + 127}",
+            f"stselfs u64 {2 ** 64 - 256} {2 ** 64 - 1}", f"stselfs i64 {2 ** 63 - 256} {2 ** 63 - 1}",
+            f"stselfs i64 {-2 ** 63} {-2 ** 63 + 255}", f"stselfs i64 3037000372 3037000627"]
+    yield Batch("st-self", ops, exhaustive=True,
+                note="x op x, x op= x, x = x, comparisons and hash with the same object on both sides: every value of the 8- and "
+                     "16-bit types, [-128,127] / [0,255] and the overflow boundaries of the wider types")
+    # members and helper functions
+    ops = [f"stmems i32 {a} -8 8" for a in range(-8, 9)] + [f"stmems u8 {a} 0 255" for a in (0, 1, 65, 128, 255)]
+    ops += [f"stmems i8 {a} -128 127" for a in (-128, -1, 0, 48, 127)]
+    ops += [f"stmem {ty} {a} {b}" for ty in ("i32", "u32", "i64", "u64", "i16", "u16") for a in BOUNDARY[ty] for b in BOUNDARY[ty]]
+    yield Batch("st-members", ops, exhaustive=True,
+                note="non-const get(), no_init, copy / move, strong_typedef_map / _apply / _construct_cast, << and >>")
     r = rng.fork("st-random")
     ops = []
     for _ in range(200000 if thorough else 3000):
-        ty = r.choice(["i32", "u32", "i64", "u64"])
+        ty = r.choice(["i32", "u32", "i64", "u64", "i16", "u16"])
         a = rand_int(r, ty)
         b = a if r.chance(1, 8) else rand_int(r, ty)
         ops.append(f"st {ty} {a} {b}")
+        if r.chance(1, 8):
+            ops.append(f"stmem {ty} {a} {b}")
+            ops.append(f"stself {ty} {a}")
     ops += [f"sts u32 {a} 0 255" for a in ([0, 1, 255, 2 ** 32 - 1] if not thorough else list(range(0, 256)) + [2 ** 32 - 1])]
     if thorough:
         # the same 256-wide windows at the ends of the ranges (overflow on one side)
